@@ -278,7 +278,15 @@ func (l *lbCtx) lb(v ssa.Value, blk *ssa.BasicBlock, depth int) int64 {
 	case *ssa.Call:
 		if builtinName(x.Common()) == "append" {
 			structural = l.lb(x.Common().Args[0], x.Block(), depth+1)
+		} else if callee := x.Common().StaticCallee(); callee != nil && callee.Blocks != nil {
+			// a helper that returns its argument, possibly shortened by a constant (trimLastIf(x, r))
+			if pk, delta, ok := shorteningSummary(callee); ok && pk < len(x.Common().Args) {
+				structural = l.lb(x.Common().Args[pk], x.Block(), depth+1) - delta
+			}
 		}
+	case *ssa.Parameter:
+		// what every static call site of the function guarantees for this parameter
+		structural = paramLowerBound(x, depth)
 	case *ssa.Convert:
 		// []rune(string) etc.: nothing known
 	case *ssa.MakeSlice:
@@ -301,6 +309,7 @@ func (l *lbCtx) lb(v ssa.Value, blk *ssa.BasicBlock, depth int) int64 {
 
 func ruleC18R5(c *Ctx) {
 	theProgram = c.Program
+	paramLBMemo = map[*ssa.Parameter]int64{}
 	n := 0
 	for _, fn := range analysisAllFuncs(c) {
 		l := &lbCtx{fn: fn, memo: map[string]int64{}, busy: map[string]bool{}}
@@ -420,4 +429,150 @@ func usedAsLowBoundBefore(fn *ssa.Function, p ssa.Value, blk *ssa.BasicBlock) bo
 		}
 	})
 	return ok
+}
+
+// shorteningSummary: fn returns (on every return) its slice parameter pk itself or a prefix /
+// suffix of it that is shorter by at most delta elements.
+func shorteningSummary(fn *ssa.Function) (pk int, delta int64, ok bool) {
+	if fn.Signature.Results().Len() != 1 {
+		return 0, 0, false
+	}
+	if _, isSlice := fn.Signature.Results().At(0).Type().Underlying().(*types.Slice); !isSlice {
+		return 0, 0, false
+	}
+	pk = -1
+	var short func(v ssa.Value, seen map[ssa.Value]bool) (int64, bool)
+	short = func(v ssa.Value, seen map[ssa.Value]bool) (int64, bool) {
+		if seen[v] {
+			return 0, true
+		}
+		seen[v] = true
+		switch x := v.(type) {
+		case *ssa.Parameter:
+			for i, p := range fn.Params {
+				if p == x {
+					if pk >= 0 && pk != i {
+						return 0, false
+					}
+					pk = i
+					return 0, true
+				}
+			}
+			return 0, false
+		case *ssa.Phi:
+			var m int64
+			for _, e := range x.Edges {
+				d, ok := short(e, seen)
+				if !ok {
+					return 0, false
+				}
+				if d > m {
+					m = d
+				}
+			}
+			return m, true
+		case *ssa.Slice:
+			d0, ok := short(x.X, seen)
+			if !ok {
+				return 0, false
+			}
+			lowK := int64(0)
+			if x.Low != nil {
+				c, okc := constInt(x.Low)
+				if !okc {
+					return 0, false
+				}
+				lowK = c
+			}
+			if x.High == nil {
+				return d0 + lowK, true
+			}
+			if k, ok := lenTermOf(x.High, x.X); ok {
+				return d0 + k + lowK, true
+			}
+			return 0, false
+		}
+		return 0, false
+	}
+	okAll := true
+	eachInstr(fn, func(in ssa.Instruction) {
+		r, isRet := in.(*ssa.Return)
+		if !isRet || len(r.Results) != 1 {
+			return
+		}
+		d, ok := short(r.Results[0], map[ssa.Value]bool{})
+		if !ok {
+			okAll = false
+			return
+		}
+		if d > delta {
+			delta = d
+		}
+	})
+	return pk, delta, okAll && pk >= 0
+}
+
+var paramLBMemo = map[*ssa.Parameter]int64{}
+var paramLBBusy = map[*ssa.Parameter]bool{}
+
+// paramLowerBound: the smallest lower bound on len(p) that the static call sites of p's function
+// establish for the argument (0 when the function is exported, has no static call site in the
+// module, is called through a value, or the recursion is too deep).
+func paramLowerBound(p *ssa.Parameter, depth int) int64 {
+	if theProgram == nil || depth > 3 {
+		return 0
+	}
+	if r, ok := paramLBMemo[p]; ok {
+		return r
+	}
+	if paramLBBusy[p] {
+		return 1 << 30
+	}
+	fn := p.Parent()
+	if fn == nil || fn.Object() == nil || fn.Object().Exported() || fn.Parent() != nil {
+		return 0
+	}
+	idx := -1
+	for i, q := range fn.Params {
+		if q == p {
+			idx = i
+		}
+	}
+	if idx < 0 {
+		return 0
+	}
+	paramLBBusy[p] = true
+	defer delete(paramLBBusy, p)
+	best := int64(1 << 30)
+	sites := 0
+	addrTaken := false
+	for _, g := range theProgram.SrcFuncs() {
+		eachInstr(g, func(in ssa.Instruction) {
+			for _, op := range in.Operands(nil) {
+				if *op == ssa.Value(fn) {
+					if cc := callOf(in); cc == nil || cc.Value != ssa.Value(fn) {
+						addrTaken = true
+					}
+				}
+			}
+			call, ok := in.(*ssa.Call)
+			if !ok || call.Common().StaticCallee() != fn {
+				return
+			}
+			sites++
+			if idx >= len(call.Common().Args) {
+				best = 0
+				return
+			}
+			lc := &lbCtx{fn: g, memo: map[string]int64{}, busy: map[string]bool{}}
+			if r := lc.lb(call.Common().Args[idx], call.Block(), depth+1); r < best {
+				best = r
+			}
+		})
+	}
+	if sites == 0 || addrTaken || best >= 1<<29 {
+		best = 0
+	}
+	paramLBMemo[p] = best
+	return best
 }
